@@ -42,9 +42,13 @@ def expand(b, rnd, norders):
         for accmode in ('init', 'start', 'never'):
             if accmode != 'init' and not any(b['att'][m] for m in mods):
                 continue
-            out.append(dict(order=list(order), att={m: sorted(b['att'][m]) for m in mods},
-                            wrong=[list(e) for e in b['wrong']], fail=b['fail'], polls=sorted(b['polls']),
-                            writes=sorted(b['writes']), acc={m: accmode for m in mods}, exported=mods))
+            c = dict(order=list(order), att={m: sorted(b['att'][m]) for m in mods},
+                     wrong=[list(e) for e in b['wrong']], fail=b['fail'], polls=sorted(b['polls']),
+                     writes=sorted(b['writes']), acc={m: accmode for m in mods}, exported=mods)
+            out.append(c)
+            if accmode != 'init':
+                # the same with attachments declared optional (mandatory=False) and given in the configuration
+                out.append(dict(c, opt=True))
     return out
 
 
